@@ -18,6 +18,8 @@ EXPLANATION = (
     "iterator) whenever it succeeds, and the back edge is only reached on that success - summaries are computed "
     "inductively from BufRead::consume(n>=1) / read_exact([u8;N]) / Option::take; (recursion) every call-graph cycle "
     "is cut by an edge that is only taken after a depth-gate (depth < constant, depth+1 stored) succeeded; "
+    "(limit) a LEN field's length is checked against the enclosing limit before the field exists, and the owned reader "
+    "pre-allocates only when the input end is known; "
     "(panic-sites) no unwrap/expect/panic!/index site outside the discharged or reviewed set. Decides termination "
     "and panic-freedom structurally for all inputs; linear time is decided only as 'each iteration consumes input'.")
 ASSUMPTIONS = ["std::io (Cursor, BufReader, File) read/seek semantics are trusted", "external implementations of ReadValue are out of scope",
